@@ -81,7 +81,7 @@ func genCache(r *Rng, tier string, p *Plan) {
 	fill := small && r.Bool(0.6)
 	if r.Bool(0.15) {
 		// a filter of a few hundred entries, filled in bursts
-		p.N["dropped"] = int64(PickOf(r, 60, 100, 250))
+		p.N["dropped"] = int64(PickOf(r, 100, 120, 250))
 		fill = true
 	}
 	nextFresh := int64(1000)
@@ -90,7 +90,7 @@ func genCache(r *Rng, tier string, p *Plan) {
 		if fill && r.Bool(0.35) {
 			// a burst of drop records for fresh traces (pushes the filter towards a
 			// rotation), then time for the drain and a maintenance cycle or two
-			k := int64(max(1, 2*int(p.N["dropped"])/PickOf(r, 2, 3, 5))) // the filter has up to twice the configured slots
+			k := int64(max(1, 2*int(p.N["dropped"])/PickOf(r, 3, 5, 8))) // the filter has up to twice the configured slots
 			probe := r.Bool(0.6)
 			if probe {
 				// a decision recorded just before the burst, looked up after it
@@ -173,9 +173,9 @@ func runCache(t *testing.T, p *Plan) *Outcome {
 		// generations through the load-factor gauge of each maintenance cycle and
 		// counts the records routed into each filter. A record must be answered
 		// "dropped" for as long as a filter that received it is the current one and
-		// cannot have been filled to capacity: fewer records than three quarters of
-		// its slots since it was created (near capacity a cuckoo filter evicts old
-		// entries when an insert fails; that is "filled to capacity").
+		// cannot have been filled to capacity: few enough records since it was
+		// created that no insert can have failed (near capacity a cuckoo filter
+		// evicts old entries when an insert fails; that is "filled to capacity").
 		type dropRec struct {
 			gen    int // generation of the current filter at record time
 			twoGen bool
@@ -225,7 +225,15 @@ func runCache(t *testing.T, p *Plan) *Outcome {
 			follow()
 			rotated = curGen > d.gen
 			if curGen == d.gen || (curGen == d.gen+1 && d.twoGen) {
-				return float64(routed[curGen]) <= 0.75*slots, rotated
+				// Below these bounds no insert can have failed (a failed insert evicts an
+				// arbitrary old entry). Small filters: with at most a quarter of the
+				// slots used no bucket pair can be full (provable). Larger ones: at 65%
+				// no failure in 300000 trials of the same library at 75% (a 64-slot
+				// filter at 75% fails 3 times in 100000, hence the distinction).
+				if slots < 128 {
+					return float64(routed[curGen]) <= slots/4, rotated
+				}
+				return float64(routed[curGen]) <= 0.65*slots, rotated
 			}
 			return false, rotated
 		}
